@@ -46,11 +46,13 @@ import "github.com/acquirecloud/golibs/kvs"
 //@   requires r != nil
 //@   requires [C02] freshversion: !in(r.Version, atEntry(issued))
 // [C06] what the TTL of the write command has to match (see go-redis in /verif/contracts/stdlib.spec)
-//@   modifies encHas, encAt, encExpiring
+//@   modifies encHas, encAt, encExpiring, encKey, encVer
 //@   ghostexit encHas := r.ExpiresAt != nil
+//@   ghostexit encKey := r.Key
+//@   ghostexit encVer := r.Version
 //@   ghostexit encAt := ite(r.ExpiresAt != nil, *r.ExpiresAt, encAt)
 //@   ghostexit encExpiring := encExpiring + ite(r.ExpiresAt != nil, 1, 0)
-//@   ensures encHas == (r.ExpiresAt != nil) && (r.ExpiresAt != nil ==> encAt == *r.ExpiresAt)
+//@   ensures encHas == (r.ExpiresAt != nil) && (r.ExpiresAt != nil ==> encAt == *r.ExpiresAt) && encKey == r.Key && encVer == r.Version
 //@   ensures encExpiring == old(encExpiring) + ite(r.ExpiresAt != nil, 1, 0)
 //@   ensures codec: fresh(r0) && off(r0) == 0 && holdsRec(arr(r0), r.Key, r.Version, r.Value, r.ExpiresAt)
 // decoding: the version of the decoded record comes out of the bytes decoded: decodedFor(v, k) - "version v was decoded
@@ -67,7 +69,7 @@ import "github.com/acquirecloud/golibs/kvs"
 //@   props C03 C06
 //@   maypanic
 //@   requires r != nil && !in(r.Version, issued)
-//@   modifies encHas, encAt, encExpiring
+//@   modifies encHas, encAt, encExpiring, encKey, encVer
 //@   ensures r0.Key == r.Key && r0.Version == r.Version && len(r0.Value) == len(r.Value) && forall(i, 0, len(r.Value), r0.Value[i] == r.Value[i])
 //@   ensures (r0.ExpiresAt != nil) == (r.ExpiresAt != nil)
 //@   ensures r.ExpiresAt != nil ==> sameInstant(*r0.ExpiresAt, *r.ExpiresAt)
@@ -96,12 +98,15 @@ func lemmaRecordRoundTrip(r *kvs.Record) kvs.Record { return db2rec(rec2db(r)) }
 //@ func (c *client) Create(ctx context.Context, record kvs.Record) (string, error)
 //@   props C02 C03 C06
 //@   requires c != nil && c.rdb != nil
-//@   modifies issued, clock, redisGets, encHas, encAt, encExpiring, rwkey, nsetnx, nset, nmset, ndel, ntxset, setnxWon, lastIntOK, lastInt
+//@   modifies issued, clock, redisGets, encHas, encAt, encExpiring, encKey, encVer, rwkey, nsetnx, nset, nmset, ndel, ntxset, setnxWon, lastIntOK, lastInt
 //@   ensures r1 == nil ==> !in(r0, old(issued)) && r0 != ""
 // [C02] "of several racing creators exactly one succeeds", the client's half: the only write command of Create is one
 // SETNX for the record's key, and Create succeeds only if the server answered that this SETNX did set the key
 //@   ensures [C02] setnx: nset == old(nset) && nmset == old(nmset) && ntxset == old(ntxset) && ndel == old(ndel) && nsetnx <= old(nsetnx) + 1
 //@   ensures [C02] setnx: r1 == nil ==> nsetnx == old(nsetnx) + 1 && rwkey == rkeyOf(record.Key) && setnxWon
+// [C03]/[C06] what the SETNX carries is the record given - its key, its expiry - under the version handed back
+//@   ensures [C03] given: nsetnx == old(nsetnx) + 1 ==> encKey == record.Key && encHas == (record.ExpiresAt != nil) && (record.ExpiresAt != nil ==> encAt == *record.ExpiresAt)
+//@   ensures [C03] given: r1 == nil ==> encVer == r0
 //@   ensures [C03] errexist: r1 == errors.ErrExist ==> nsetnx == old(nsetnx) + 1 && !setnxWon
 //@   ensures [C03] errexist: r1 != nil ==> r1 == errors.ErrExist || r1 == errors.ErrNotExist || !isClass(r1)
 // [C03] "Create fails with ErrExist and reports the stored version": the stored record is looked up, and a version
@@ -112,17 +117,18 @@ func lemmaRecordRoundTrip(r *kvs.Record) kvs.Record { return db2rec(rec2db(r)) }
 //@ func (c *client) Put(ctx context.Context, record kvs.Record) (kvs.Record, error)
 //@   props C02 C03 C06
 //@   requires c != nil && c.rdb != nil
-//@   modifies issued, clock, encHas, encAt, encExpiring, rwkey, nsetnx, nset, nmset, ndel, ntxset, setnxWon, lastIntOK, lastInt
+//@   modifies issued, clock, encHas, encAt, encExpiring, encKey, encVer, rwkey, nsetnx, nset, nmset, ndel, ntxset, setnxWon, lastIntOK, lastInt
 //@   ensures !in(r0.Version, old(issued)) && forall(v, string, in(v, old(issued)) ==> in(v, issued))
 // [C03] "Put stores what was given under a new version": one SET for the record's key, the record handed back is the
 // one given but for the version
 //@   ensures nset == old(nset) + 1 && nsetnx == old(nsetnx) && nmset == old(nmset) && ndel == old(ndel) && rwkey == rkeyOf(record.Key)
 //@   ensures [C03] stored: r0.Key == record.Key && r0.ExpiresAt == record.ExpiresAt && r0.Value == record.Value
+//@   ensures given: encKey == record.Key && encVer == r0.Version && encHas == (record.ExpiresAt != nil) && (record.ExpiresAt != nil ==> encAt == *record.ExpiresAt)
 
 //@ func (c *client) PutMany(ctx context.Context, records []kvs.Record) error
 //@   props C02 C03 C06
 //@   requires c != nil && c.rdb != nil
-//@   modifies issued, clock, encHas, encAt, encExpiring, rwkey, nsetnx, nset, nmset, ndel, ntxset, setnxWon, lastIntOK, lastInt
+//@   modifies issued, clock, encHas, encAt, encExpiring, encKey, encVer, rwkey, nsetnx, nset, nmset, ndel, ntxset, setnxWon, lastIntOK, lastInt
 // [C03] the batch goes out either as one MSET (built in the order given) or record by record, in the order given,
 // through Put - never partly one way and partly the other (which would reorder writes to a repeated key)
 //@   ensures [C03] order: (nmset == old(nmset) || nset == old(nset)) && nmset <= old(nmset) + 1 && nsetnx == old(nsetnx) && ndel == old(ndel)
@@ -139,6 +145,10 @@ func lemmaRecordRoundTrip(r *kvs.Record) kvs.Record { return db2rec(rec2db(r)) }
 // [C02] single CAS winner, the client's half: the body succeeds (and writes) only if the version the caller expects
 // is the version decoded from a value it read through the watching transaction for this very key
 //@   ensures [C02] cas: r0 == nil ==> decodedFor(old(record.Version), *key)
+// [C03]/[C06] "CasByVersion stores what was given under a new version": the record encoded for the SET has the caller's
+// key and the caller's expiry (none iff the caller gave none), and the new version
+//@   ensures given: r0 == nil ==> encKey == old(record.Key) && encVer == record.Version && encHas == (old(record.ExpiresAt) != nil) && (old(record.ExpiresAt) != nil ==> encAt == *old(record.ExpiresAt))
+//@   ensures given: record.Key == old(record.Key) && record.ExpiresAt == old(record.ExpiresAt) && record.Value == old(record.Value)
 
 // [C03] "Get returns the last written key, value, version": what Get hands out was decoded from a value read for the
 // prefixed key, under the caller's key; an absent key is ErrNotExist; one GET per call
@@ -172,7 +182,7 @@ func lemmaRecordRoundTrip(r *kvs.Record) kvs.Record { return db2rec(rec2db(r)) }
 // Get said so (or the context's error is that very value), anything else is the error of the last Get or of a context
 // that is done
 //@ func (c *client) WaitForVersionChange(ctx context.Context, key string, ver string) error
-//@   props C07
+//@   props C06 C07
 //@   requires c != nil && c.rdb != nil && ctx != nil
 //@   modifies everything
 //@   ensures r0 == nil ==> lastGotErr == nil && lastGotKey == key && lastGotVer != ver
